@@ -43,7 +43,7 @@ def required(tier):
 
 def gen_cases(seed, tier):
     rng = np.random.default_rng([seed, 3])
-    n = 300 if tier == 'quick' else 9000
+    n = 300 if tier == 'quick' else 30000
     cases = []
     for i in range(n):
         start = STARTS[i % len(STARTS)]
